@@ -2,6 +2,7 @@ package main
 
 import (
 	"fmt"
+	"os"
 	"path/filepath"
 	"strings"
 	"sync"
@@ -28,9 +29,11 @@ const (
 )
 
 var pki pkiSet
+var pkiDir string
 
 func setupPKI() error {
-	dir := filepath.Join(h.RunDir(prop), "pki")
+	dir := filepath.Join(h.RunDir(prop), fmt.Sprintf("pki-%d", os.Getpid()))
+	pkiDir = dir
 	good, err := h.NewCA(dir, "good")
 	if err != nil {
 		return err
@@ -143,6 +146,9 @@ func closeServers() {
 		}
 	}
 	wg.Wait()
+	if pkiDir != "" {
+		_ = os.RemoveAll(pkiDir)
+	}
 }
 
 // sessionsOfUser returns the run ids of the sessions whose login carried the given user.
